@@ -1,4 +1,5 @@
 //! L1 simulator entry point. See /verif/DESIGN.md §2.2.
+mod c05ops;
 mod c10;
 mod c19;
 mod c20store;
